@@ -762,7 +762,11 @@ impl Report {
                 .find(|k| k.property == self.id && k.status == "known" && sig_matches(&k.signature, &f.viol.sig));
             if let Some(k) = k {
                 n_known += 1;
-                lines.push(format!("KNOWN-FINDING: property={} {} [{}] replay={}", self.id, k.what, f.viol.sig, path.display()));
+                let mut what: String = k.what.chars().take(200).collect();
+                if what.len() < k.what.len() {
+                    what.push_str("...");
+                }
+                lines.push(format!("KNOWN-FINDING: property={} {} [{}] replay={}", self.id, what, f.viol.sig, path.display()));
                 known_list.push(json!({"signature": f.viol.sig, "detail": f.viol.detail}));
             } else {
                 n_viol += 1;
